@@ -595,6 +595,22 @@ class StmtMixin:
         if isinstance(node, ast.For):
             tgt = ast.unparse(node.target)
             cands = [k for k in specs if k.startswith(f"for {tgt} in ")]
+            if not cands:
+                # the loop variable(s) were renamed: same iterable, same target shape -- the contract's names for them become aliases
+                it_txt = ast.unparse(node.iter)
+                for k in specs:
+                    if k.startswith("for ") and k.endswith(" in " + it_txt):
+                        try:
+                            old_t = ast.parse(k[4:-len(" in " + it_txt)], mode="eval").body
+                        except SyntaxError:
+                            continue
+                        olds = [n.id for n in ast.walk(old_t) if isinstance(n, ast.Name)]
+                        news = [n.id for n in ast.walk(node.target) if isinstance(n, ast.Name)]
+                        if len(olds) == len(news) and ast.dump(old_t).replace("'", "").count("Name") == ast.dump(node.target).count("Name"):
+                            if not hasattr(self, "loop_alias"):
+                                self.loop_alias = {}
+                            self.loop_alias[id(node)] = dict(zip(olds, news))
+                            cands.append(k)
         else:
             names = {n.id for n in ast.walk(node.test) if isinstance(n, ast.Name)} | \
                     {n.attr for n in ast.walk(node.test) if isinstance(n, ast.Attribute)}
